@@ -1,11 +1,13 @@
-SPECIFICATION MCSpec
-CONSTANT Shapes = {11}
-CONSTANT MaxEntries = 2
-CONSTANT Wide = {}
-CONSTANT MaxLL = 2
-CONSTANT StateShapes = {}
-CONSTANT Odd = TRUE
-CONSTANT LRun = TRUE
-CONSTANT CacheAll = TRUE
+INIT MCInit
+NEXT MCNext
+CONSTANTS
+  Shapes = {14}
+  MaxEntries = 2
+  Wide = {}
+  MaxLL = 2
+  StateShapes = {}
+  Odd = TRUE
+  LRun = TRUE
+  CacheAll = TRUE
 INVARIANT CacheSound
 CHECK_DEADLOCK FALSE
